@@ -315,6 +315,33 @@ func checkC17(c *Ctx) {
 	}
 	c.Sample(map[string]interface{}{"schedule_example": scheds[len(scheds)/2], "pool_example_input": pools[0][1].src})
 
+	// many different compilations in between (a cache with eviction, a counter that wraps): the
+	// first results must come back unchanged afterwards
+	{
+		mbase := Opts{Optimize: true, FontConfig: repoFontConfig, AutoVar: genAutoVar()}
+		msw := mbase
+		msw.Switches = map[string]string{"GAME": "RUBY"}
+		first := []sessInput{
+			{"script A {\n    msgbox(format(\"Please take good care of this rare POKeMON for me okay thanks a lot my friend\"))\n}\n", mbase},
+			{"const K = 3\nscript S {\n    setvar(VAR_X, K)\n    if (var(VAR_X) == K) {\n        hit\n    }\n}\n", mbase},
+			{"script S {\n    poryswitch(GAME) {\n        RUBY: msgbox(\"ruby\")\n        _: msgbox(\"other\")\n    }\n    msgbox(\"after\")\n}\n", msw}}
+		var before []string
+		for _, in := range first {
+			rs := Compile(in.src, in.o)
+			before = append(before, rs.Out+errText(rs.Err))
+		}
+		for k := 0; k < 700; k++ {
+			src := fmt.Sprintf("script Many%d {\n    msgbox(format(\"word%d and another word%d to fill the line up %d\"))\n    cmd%d(%d)\n}\ntext T%d {\n    \"t%d\"\n}\n", k, k, k, k, k, k, k, k)
+			Compile(src, mbase)
+		}
+		for i, in := range first {
+			rs := Compile(in.src, in.o)
+			if rs.Out+errText(rs.Err) != before[i] {
+				o := in.o
+				c.Violate(Violation{What: "the same input and options gave a different result after 700 other compilations in the process", Source: in.src, Opts: &o})
+			}
+		}
+	}
 	// ---- independence of unrelated statements -------------------------------
 	fc := FileCfg{MaxTops: 4, Inline: false, MapScripts: true, Raw: true,
 		Ctl: GenCfg{MaxDepth: 3, MaxStmts: 3, MaxLeaves: 3, Auto: true, Switches: true, Gotos: true}}
@@ -326,9 +353,17 @@ func checkC17(c *Ctx) {
 		src, _ := RenderFile(&File{Tops: tops}, Style{R: r, Layout: 0})
 		return Compile(src, o), src
 	}
+	bigSizes := []int{65, 70, 130, 200}
 	for i := 0; i < nfiles; i++ {
 		// (a) files without inline data: the output is the join of the statements compiled alone
 		f, av := GenFile(r, fc, fmt.Sprint("_", i))
+		if i < len(bigSizes) {
+			// files with very many top-level statements
+			for k := 0; len(f.Tops) < bigSizes[i]; k++ {
+				more, _ := GenFile(r, fc, fmt.Sprintf("_%d_%d", i, k))
+				f.Tops = append(f.Tops, more.Tops...)
+			}
+		}
 		o := Opts{Optimize: i%2 == 0, AutoVar: av}
 		whole, src := compileTops(f.Tops, o)
 		if whole.Err == nil && whole.Panic == "" {
